@@ -285,6 +285,25 @@ func runReplayCmd(path string) int {
 		fmt.Fprintln(os.Stderr, err)
 		return 2
 	}
+	if m.Pkg == "main" {
+		cr, err := newCLIReplayer()
+		if err != nil {
+			fmt.Fprintln(os.Stderr, err)
+			return 2
+		}
+		defer cr.close()
+		raw := map[string]string{}
+		res := cr.runConcrete(&Job{Entry: m.Entry, Pkg: "main", N: m.N}, &m, m.Assertion)
+		_ = raw
+		out, _ := json.MarshalIndent(res, "", "  ")
+		fmt.Println(string(out))
+		if confirms(res, m.Assertion) {
+			fmt.Printf("VIOLATION property=%s replay=%s\n", m.Property, path)
+			return 1
+		}
+		fmt.Println("not reproduced")
+		return 0
+	}
 	c := &Check{ID: m.Property, Files: m.Files}
 	rp, err := newReplayer(c, &loaded{hasWasm: strings.Contains(strings.Join(m.Files, ","), "c17")}, map[string]bool{m.Pkg: true})
 	if err != nil {
